@@ -1,16 +1,53 @@
 /-
-  C07 — Every decoder is total: any input yields a value or an error, never a crash.
-  Property theorems only.  This file covers the SMB command decoders (the 115 regenerated
-  unmarshal programs: the kernel decides the static predicate `Guarded` on them, `guarded_sound`
-  proves the predicate sound for the semantics, `smb_decode_total` is the resulting theorem about
-  every input) and the nested wire types (C06 decoders); the other decoding entry points are proved
-  total in the property files of their own models and re-exported here.
+  C07 — Every decoder is total: any input yields a value or an error, never a crash, a hang or an
+  allocation out of proportion to the input.
+  Property theorems only, one group per family of decoding entry points:
+
+    * SMB command structures: the 115 regenerated unmarshal programs (the kernel decides the static
+      predicate `Guarded` on them, `guarded_sound` proves the predicate sound for the semantics,
+      `smb_decode_total` is the resulting theorem about every input) and the nested wire types
+      (the C06 decoders: totality and `0 < consumed ≤ len(data)`);
+    * every other decoding entry point that has a hand model (the models of C08–C16 and C20, with the
+      repairs of fixes/C07-*.diff applied): one public theorem per entry point, `f input ≠ .panic`
+      (or the stronger `∃ r, f input = .ok r` where the Go function has no error result).  Where the
+      owning property file already proves it, the theorem is re-exported under the entry point's
+      name; the others are proved in Lemmas/C07Total.lean and Lemmas/C14Total.lean.
+    * the allocation clause where the model makes it expressible: `llmnr_name_alloc_bound` (the one
+      decoder that copies more than it reads: compression pointers), and `|output| ≤ |input|` bounds
+      for the decoders whose results are sub-slices or copies of the input (key material, DN-with-
+      binary, PKCS#7, the C06 byte counts).
+
+  Termination: every model function is a total Lean definition (structural recursion, or
+  well-founded recursion with a proved measure: the LLMNR/NBNS pointer walk, the key-credential
+  entry walk), so "never hangs" is Lean's totality of the model; the one Go loop that can spin
+  (`for offset+size <= len(blk)` with size 0) is reported by the IR semantics as a panic and
+  excluded by `guarded_sound`.
+
+  Entry points whose model is a plain total function (no `Outcome`: the Go code has no slice/index
+  expression that can fail, and no error result) need no theorem: `CustomKeyInformation.FromBytes`
+  (`C14.CKI.fromBytes`), `ConvertToBinaryIdentifier` (`Option`), `KeyCredentialVersion.FromBytes`
+  (`C14.versionFromBytes`), the LDAP time parsers (`C15.ldapToUnix`, `C15.ldapDurationToSeconds`),
+  `GetDomainFromDistinguishedName` (`C16.domainOfDN`), `ValidateDomainName` (`C09.validateName`).
+
+  This file imports no `Manticore.Gen.*` module other than `SmbCommands`: a change in /repo that
+  breaks another property's extractor cannot break this build.
 -/
 import Manticore.Model.SmbCmd
 import Manticore.Model.SmbCodecs
 import Manticore.Gen.SmbCommands
+import Manticore.Props.C08
+import Manticore.Props.C09
+import Manticore.Props.C10
+import Manticore.Props.C11
+import Manticore.Props.C12
+import Manticore.Props.C13
+import Manticore.Props.C14
+import Manticore.Props.C15
 import Manticore.Props.C16
+import Manticore.Props.C20
 import Manticore.Lemmas.C06Total
+import Manticore.Lemmas.C07Total
+import Manticore.Lemmas.C14Total
 import Manticore.Lemmas.SmbGuarded
 import Manticore.Lemmas.SmbCodecsHonest
 namespace Manticore.C07
@@ -232,7 +269,171 @@ theorem dialects_decode_bounded (b : Bytes) (v : List Bytes) (k : Nat)
     (h : Manticore.SmbCodecs.dialectsDec b = .ok (v, k)) : k ≤ b.length ∧ (b ≠ [] → 0 < k) :=
   ⟨Manticore.SmbCodecs.dialectsDec_bounded b v k h, Manticore.SmbCodecs.dialectsDec_pos b v k h⟩
 
+/-! ### NTLMSSP and SPNEGO tokens (models of C08) -/
+
+/-- `ntlm.ParseChallengeMessage` never panics (with fixes/C08-challenge-offset-wrap.diff) -/
+theorem ntlm_challenge_parse_total (d : Bytes) : Manticore.C08.parseChallenge d ≠ .panic :=
+  Manticore.C08.challenge_parse_total d
+/-- `ntlm.ParseTargetInfo` never panics -/
+theorem ntlm_target_info_total (ti : Bytes) : Manticore.C08.parseTargetInfo ti ≠ .panic :=
+  Manticore.C07T.targetInfo_no_panic ti
+/-- `spnego.ExtractNTLMToken` never panics (with fixes/C08-gss-header-bounds.diff) -/
+theorem spnego_extract_total (d : Bytes) : Manticore.C08.extractNTLMToken d ≠ .panic :=
+  (Manticore.C08.spnego_extract_total d).1
+/-- `spnego.ParseNegTokenResp` never panics -/
+theorem spnego_neg_token_resp_total (d : Bytes) : Manticore.C08.parseNegTokenResp d ≠ .panic :=
+  (Manticore.C08.spnego_extract_total d).2
+/-- `AuthContext.ProcessChallengeToken` never panics, whatever the server's token and the
+    credentials (`upper`, `utf16`: `strings.ToUpper` / UTF-16 encoding as arbitrary functions) -/
+theorem spnego_process_challenge_total (upper utf16 : Bytes → Bytes) (token user domain ws lm nt : Bytes) :
+    Manticore.C08.processChallengeToken upper utf16 token user domain ws lm nt ≠ .panic :=
+  Manticore.C07T.processChallenge_no_panic upper utf16 token user domain ws lm nt
+
+/-! ### LLMNR packets (model of C09) -/
+
+/-- `llmnr.DecodeMessage` (header, questions, the three record sections) never panics -/
+theorem llmnr_decode_message_total (data : Bytes) : Manticore.C09.decodeMessage data ≠ .panic :=
+  Manticore.C09.decode_never_panics data
+/-- `llmnr.DecodeDomainName` never panics, for every buffer and every (non-negative) offset; the
+    recursion through compression pointers is well-founded (each pointer goes strictly backwards), so
+    it also terminates.  Negative offsets are refused before anything is read
+    (fixes/C07-llmnr-negative-offset.diff; campaign only — the model's offsets are naturals). -/
+theorem llmnr_decode_name_total (data : Bytes) (off : Nat) : Manticore.C09.decodeName data off ≠ .panic :=
+  Manticore.C09.decodeName_no_panic data off
+/-- **allocation**: a decoded name has at most `(off+1)·|data|` bytes and costs at most
+    `3·|data| + off·(off+4)·|data|` bytes of string data — polynomial in the input, no
+    amplification through pointer loops -/
+theorem llmnr_name_alloc_bound (data : Bytes) (off : Nat) (name : Bytes) (next cost : Nat)
+    (h : Manticore.C09.decodeNameC data off = .ok (name, next, cost)) :
+    name.length ≤ (off + 1) * data.length ∧ cost ≤ 3 * data.length + off * ((off + 4) * data.length) :=
+  Manticore.C09.name_alloc_bound data off name next cost h
+
+/-! ### NBNS packets and NetBIOS names (model of C10), NBT session frames (model of C11) -/
+
+/-- `NBTNSPacket.Unmarshal` never panics -/
+theorem nbns_unmarshal_total (data : Bytes) : Manticore.C10.unmarshal data ≠ .panic :=
+  Manticore.C10.unmarshal_never_panics data
+/-- `nbtns.FirstLevelDecode` never panics -/
+theorem nbns_first_level_decode_total (e : Bytes) : Manticore.C10.firstLevelDecode e ≠ .panic :=
+  Manticore.C10.l1_decode_never_panics e
+/-- `NBTTransport.Receive` never panics, whatever bytes the peer sends and wherever the stream ends -/
+theorem nbt_receive_total (s : Manticore.C11.Stream) : Manticore.C11.receive s ≠ .panic :=
+  Manticore.C11.receive_total s
+
+/-! ### PKCS#7, GPP cpasswords, UTF-16 text (models of C12) -/
+
+/-- `pkcs7.Unpad` never panics -/
+theorem pkcs7_unpad_total (buf : Bytes) : Manticore.C12.PKCS7.unpad buf ≠ .panic :=
+  Manticore.C12.pkcs7_unpad_total buf
+/-- `pkcs7.Unpad` returns a proper prefix of its input -/
+theorem pkcs7_unpad_bounded (buf m : Bytes) (h : Manticore.C12.PKCS7.unpad buf = .ok m) : m.length < buf.length := by
+  obtain ⟨p, h1, _, hb⟩ := (Manticore.C12.PKCS7.unpad_ok_iff buf m).mp h
+  rw [hb]; simp; omega
+/-- `gppp.GPPPDecryptBytes` never panics, for every ciphertext and every block function in place of
+    AES (with fixes/C12-gppp-odd-length.diff) -/
+theorem gpp_decrypt_bytes_total (D : Bytes → Bytes) (c : Bytes) : Manticore.C12.GPP.decryptBytes D c ≠ .panic :=
+  Manticore.C12.gpp_decrypt_total D c
+/-- `gppp.GPPPDecryptBase64` never panics, for every string -/
+theorem gpp_decrypt_base64_total (D : Bytes → Bytes) (s : Bytes) : Manticore.C12.GPP.decryptBase64 D s ≠ .panic :=
+  Manticore.C07T.decryptBase64_no_panic D s
+/-- `utf16.DecodeUTF16LE` returns a string for every byte string, odd lengths included
+    (with fixes/C07-utf16-odd-length.diff: it used to index one past the end) -/
+theorem utf16_decode_total (b : Bytes) : ∃ s, Manticore.C12.GPP.decodeUTF16LE b = .ok s :=
+  Manticore.C07T.decodeUTF16LE_ok b
+/-- `DecodeUTF16LE` reads exactly `len(b)/2` code units (its one allocation is `make([]uint16, len(b)/2)`) -/
+theorem utf16_decode_units (b : Bytes) (us : List UInt16) (h : Manticore.C12.GPP.unitsLE b = .ok us) :
+    us.length = b.length / 2 := (Manticore.C12.GPP.unitsLE_length b us h).symm
+
+/-! ### UUID and GUID readers (models of C13) -/
+
+/-- `(*UUID).Unmarshal` never panics -/
+theorem uuid_unmarshal_total (m : Bytes) : Manticore.C13.unmarshal m ≠ .panic := Manticore.C07T.uuid_unmarshal_no_panic m
+/-- `(*UUIDv1).Unmarshal` never panics -/
+theorem uuid_v1_unmarshal_total (m : Bytes) : Manticore.C13.v1Unmarshal m ≠ .panic := Manticore.C07T.v1Unmarshal_no_panic m
+/-- `(*UUIDv2).Unmarshal` never panics -/
+theorem uuid_v2_unmarshal_total (m : Bytes) : Manticore.C13.v2Unmarshal m ≠ .panic := Manticore.C07T.v2Unmarshal_no_panic m
+/-- `(*UUIDv8).Unmarshal` never panics -/
+theorem uuid_v8_unmarshal_total (m : Bytes) : Manticore.C13.v8Unmarshal m ≠ .panic := Manticore.C07T.v8Unmarshal_no_panic m
+/-- `(*UUIDv1).FromBytes`, `(*UUIDv2).FromBytes`, `(*UUIDv8).FromBytes` never panic -/
+theorem uuid_from_bytes_total (m : Bytes) :
+    Manticore.C13.v1FromBytes m ≠ .panic ∧ Manticore.C13.v2FromBytes m ≠ .panic ∧ Manticore.C13.v8FromBytes m ≠ .panic :=
+  ⟨Manticore.C07T.v1FromBytes_no_panic m, Manticore.C07T.v2FromBytes_no_panic m, Manticore.C07T.v8FromBytes_no_panic m⟩
+/-- `(*UUID).FromString` never panics -/
+theorem uuid_from_string_total (s : Bytes) : Manticore.C13.uuidFromString s ≠ .panic := Manticore.C07T.uuidFromString_no_panic s
+/-- `(*UUIDv1).FromString`, `(*UUIDv2).FromString`, `(*UUIDv8).FromString` never panic -/
+theorem uuid_versions_from_string_total (s : Bytes) :
+    Manticore.C13.v1FromString s ≠ .panic ∧ Manticore.C13.v2FromString s ≠ .panic ∧ Manticore.C13.v8FromString s ≠ .panic :=
+  ⟨Manticore.C07T.v1FromString_no_panic s, Manticore.C07T.v2FromString_no_panic s, Manticore.C07T.v8FromString_no_panic s⟩
+/-- `(*GUID).FromRawBytes` returns a GUID for every byte string (the nil GUID below 16 bytes; with
+    fixes/C07-guid-fromrawbytes-short.diff: it used to index past the end) -/
+theorem guid_from_raw_bytes_total (b : Bytes) : ∃ g, Manticore.C13.fromRawBytes b = .ok g :=
+  let ⟨g, h, _⟩ := (Manticore.C13.fromRaw_total b).1; ⟨g, h⟩
+/-- `guid.FromFormatN/D/B/P/X` never panic (with fixes/C13-guid-strict-dbp.diff) -/
+theorem guid_parse_total (F : Manticore.C13.Fmt) (s : Bytes) : Manticore.C13.parse F s ≠ .panic :=
+  Manticore.C13.guid_parse_never_panics F s
+/-- `guid.FromString` never panics -/
+theorem guid_from_string_total (s : Bytes) : Manticore.C13.fromString s ≠ .panic :=
+  Manticore.C13.fromString_never_panics s
+
+/-! ### key-credential blobs (models of C14 and C15) -/
+
+/-- `KeyCredential.FromBytes` never panics: entry lengths beyond the buffer, empty or short entries,
+    blobs under four bytes are errors (with fixes/C07-keycredential-frombytes-bounds.diff) -/
+theorem key_credential_parse_total (k : Manticore.C14.KeyCredential) (b : Bytes) :
+    Manticore.C14.KeyCredential.fromBytes k b ≠ .panic := Manticore.C14.parse_total k b
+/-- `KeyCredential.CheckIntegrity` / `ComputeKeyHash` return on every credential value (the entry walk
+    stops at an entry that overruns the buffer: fixes/C07-keycredential-keyhash-walk.diff), `H` arbitrary -/
+theorem key_credential_integrity_total (H : Bytes → Bytes) (k : Manticore.C14.KeyCredential) :
+    ∃ b, Manticore.C14.integrityOk H k = .ok b := Manticore.C14.integrity_total H k
+/-- `NewKeyCredential` returns for every key material, also beyond a 16-bit entry length -/
+theorem key_credential_new_total (H : Bytes → Bytes) (v : UInt32) (ids : Bytes) (m : Manticore.C14.RSAKeyMaterial)
+    (g : Manticore.C14.Guid) (t1 t2 : UInt64) : ∃ k, Manticore.C14.newKeyCredential H v ids m g t1 t2 = .ok k :=
+  Manticore.C14.new_total H v ids m g t1 t2
+/-- `RSAKeyMaterial.FromBytes` returns (a value, or the receiver with an error) on every byte string
+    (with fixes/C07-rsakeymaterial-bounds.diff) -/
+theorem rsa_key_material_parse_total (rk : Manticore.C14.RSAKeyMaterial) (v e : Bytes) :
+    ∃ r, Manticore.C14.RSAKeyMaterial.fromBytes rk v e = .ok r := Manticore.C14.rsa_fromBytes_ok rk v e
+/-- the parsed modulus and primes are sub-slices of the input: 24 header bytes plus their lengths fit in it -/
+theorem rsa_key_material_parse_bounded (rk r : Manticore.C14.RSAKeyMaterial) (v e : Bytes)
+    (h : Manticore.C14.RSAKeyMaterial.fromBytes rk v e = .ok (r, false)) :
+    r.rawBytes = v ∧ 24 + r.modulus.length + r.prime1.length + r.prime2.length ≤ v.length :=
+  Manticore.C14.rsa_fromBytes_bounded rk r v e h
+/-- `DNWithBinary.Parse` never panics -/
+theorem dn_with_binary_parse_total (raw : Bytes) : Manticore.C14.dnParse raw ≠ .panic := Manticore.C14.dnParse_no_panic raw
+/-- `DNWithBinary.Parse`: the binary value (two hex characters per byte) and the DN fit in the input -/
+theorem dn_with_binary_parse_bounded (raw bin dn : Bytes) (h : Manticore.C14.dnParse raw = .ok (bin, dn)) :
+    2 * bin.length + dn.length ≤ raw.length := Manticore.C14.dnParse_bounded raw bin dn h
+/-- `utils.ConvertFromBinaryTime` returns a time for every byte string (tick 0 below 8 bytes; with
+    fixes/C07-keycredential-binarytime-short.diff) -/
+theorem key_credential_time_total (raw : Bytes) : ∃ t, Manticore.C15.convertFromBinaryTime raw = .ok t :=
+  Manticore.C07T.convertFromBinaryTime_ok raw
+/-- the GUID reader used for the DeviceId entry (the C14 copy of the model) -/
+theorem key_credential_device_id_total (d : Bytes) : ∃ g, Manticore.C14.Guid.fromRawBytes d = .ok g :=
+  Manticore.C14.guid_fromRawBytes_ok d
+
+/-! ### SIDs (model of C16) -/
+
 /-- binary SIDs (re-exported from C16): total on every byte string -/
 theorem sid_total (b : Bytes) : ∃ s, Manticore.C16.parseSID b = .ok s := Manticore.C16.sid_total b
+
+
+/-! ### addresses, port ranges, LM:NT credentials (models of C20) -/
+
+/-- `ip.NewIPv4FromString` returns (an address or nil) for every string (with fixes/C20-ipv4-parse.diff) -/
+theorem ipv4_parse_total (s : Bytes) : ∃ r, Manticore.C20.parseIPv4 s = .ok r := Manticore.C20.ipv4_parse_total s
+/-- `ip.NewIPv6FromString` returns (an address or nil) for every string -/
+theorem ipv6_parse_total (s : Bytes) : ∃ r, Manticore.C20.parseIPv6 s = .ok r := Manticore.C20.ipv6_parse_total s
+/-- `ip.NewTCPPortRangeFromString` never panics -/
+theorem port_range_parse_total (s : Bytes) : Manticore.C20.parsePortRange s ≠ .panic := Manticore.C20.port_parse_total s
+/-- `credentials.ParseLMNTHashes` never panics -/
+theorem lmnt_parse_total (s : Bytes) : Manticore.C20.parseLMNT s ≠ .panic := Manticore.C20.lmnt_total s
+
+/-! ### non-vacuity: the former crash inputs are now values or errors of the models -/
+
+example : Manticore.C12.GPP.decodeUTF16LE [0x41] = .ok [] := by decide
+example : Manticore.C14.KeyCredential.fromBytes {} [0, 2, 0, 0, 0xff, 0xff, 3, 0] = .err :=
+  Manticore.C14.parse_rejects_entry_length
+example : Manticore.C15.convertFromBinaryTime [1] = .ok (.at 0 (-11644473600) 0) := by decide
+example : Manticore.C13.fromRawBytes [1] = .ok ⟨0, 0, 0, 0, 0⟩ := by decide
 
 end Manticore.C07
